@@ -36,7 +36,7 @@ Definition same_state (a b : view) : bool :=
   list_eqb Nat.eqb (v_iter a) (v_iter b) && list_eqb oval_eqb (v_attr a) (v_attr b) &&
   oval_eqb (v_default a) (v_default b).
 Definition readonly (strategy : bool) (o : op) : bool :=
-  match o with OObs _ => true | OSetBad _ => negb strategy | _ => false end.
+  match o with OObs _ => true | OSetBad _ => negb strategy | ODelT _ => true | _ => false end.
 Fixpoint pure_ok (strategy : bool) (prev : view) (ops : list op) (obs : list view) : bool :=
   match ops, obs with
   | o :: r, v :: r' => (if readonly strategy o then same_state prev v else true) && pure_ok strategy v r r'
